@@ -783,9 +783,49 @@ def _container_cases(tier):
     return out
 
 
+def _twin_cases(t):
+    """Containers holding two members with identical content (distinct objects): the same edit applied to both
+    changes the bytes of the container and must change its hash (a combination of member hashes in which equal
+    members cancel would not notice)."""
+    import trimesh
+
+    V = np.array([[0, 0, 0], [1, 0, 0], [0, 1, 0], [0, 0, 1]], dtype=np.float64)
+    F = np.array([[0, 2, 1], [0, 1, 3], [1, 2, 3], [0, 3, 2]], dtype=np.int64)
+
+    def scene(n):
+        s = trimesh.Scene()
+        for i in range(n):
+            s.add_geometry(trimesh.Trimesh(V.copy(), F.copy(), process=False), node_name=f"n{i}", geom_name=f"g{i}")
+        return s
+
+    for n in (2, 3, 4):
+        for what in ("vertices", "faces"):
+            case = {"twins": ["Scene", n, what]}
+            t.evaluations += 1
+            t.nontrivial_count += 1
+            s = scene(n)
+            h0 = _chash(s)
+            for g in s.geometry.values():
+                if what == "vertices":
+                    g.vertices[0, 0] += 1.0
+                else:
+                    g.faces[0] = g.faces[0][[1, 2, 0]]
+            h1 = _chash(s)
+            if h1 == h0:
+                t.violation("container Scene: the same edit applied to every one of several equal geometries leaves the scene hash unchanged", case, {"before": h0, "after": h1})
+                continue
+            # and an edit of a single member as well
+            s = scene(n)
+            h0 = _chash(s)
+            list(s.geometry.values())[-1].vertices[0, 0] += 1.0
+            if _chash(s) == h0:
+                t.violation("container Scene: an edit of one of several equal geometries leaves the scene hash unchanged", case, {})
+
+
 def _equal_hash_cases():
     """Two independently built containers with equal arrays hash equal; neutral ops keep the hash."""
     t = harness.Tally()
+    _twin_cases(t)
     for name in CONTAINERS:
         a, members = _mk_container(name)
         b, _ = _mk_container(name)
